@@ -60,6 +60,6 @@ def run(ctx: Ctx) -> None:
     from .c16 import decode_set_store_local, default_dirs_agree
     decode_set_store_local(ctx, v, "C07.R12")
     default_dirs_agree(ctx, v, "C07.R12")
-    f = ctx.prog.funcs.get("dds._api._store")
+    f = ctx.prog.func("dds._api._store")
     if f is not None:
         rep.info("C07.R1", f.qname, "delayed creation of the default store is a check-then-set on a module global inside one process (listed, not judged: the property is about processes)", f.loc())
